@@ -23,7 +23,11 @@ configuration (floor resolves to a different callee in each):
 Assumptions (part of the property's own hypotheses): the texture is non-empty,
 a SamplerRepeatPot is used with the texture it was created for, and dimensions
 are exactly representable in f32 (< 2^24).
-Leaves: which texel is addressed (floor/modulo arithmetic on negatives).
+  K-floor  the repeat sampler's masked operand is floor(coord) converted through
+           residue-preserving integer conversions (float->signed, int->int); a direct
+           float->unsigned cast, a truncation without floor or float arithmetic before
+           the floor are reported
+Leaves: the clamping sampler's texel choice beyond its bounds.
 """
 from . import facts, guards as G, term as T, common, panics as P, callgraph as CG, poly as PL
 
@@ -53,6 +57,135 @@ def repeat_component(prog, t, axis):
         if m[0] == "field" and m[2] == want:
             return True, "x & %s" % want
     return False, "masked with the wrong field: %s" % T.show(t)[:80]
+
+
+COORD_CLASSES = ("negative non-integer", "negative exact integer", "negative zero", "zero or positive integer", "positive non-integer")
+
+
+def _subst(t, args):
+    if not isinstance(t, tuple):
+        return t
+    if t[0] == "param" and isinstance(t[1], int) and 1 <= t[1] <= len(args):
+        return args[t[1] - 1]
+    return tuple(_subst(x, args) if isinstance(x, tuple) else x for x in t)
+
+
+def floor_offset(prog, t, acc, cls, depth=0):
+    """Abstract value of an integer-valued term relative to floor(coord), for a coordinate in class `cls`
+    (|coord| < 2^31): returns ("off", k) meaning floor(coord) + k, ("int", k) for a constant, ("coord",) for
+    the raw float coordinate, ("bad", why) or ("unknown", why)."""
+    t = T.strip(t, refs=True, sites=True)
+    neg = cls.startswith("negative")
+    if t[0] == "const" and isinstance(t[2], (int, bool)):
+        return ("int", int(t[2]))
+    if t[0] == "call":
+        decl = t[1].split(" => ")[0]
+        res = t[1].split(" => ")[-1]
+        last = decl.rsplit("::", 1)[-1]
+        if decl.endswith(acc):
+            return ("coord",)
+        a = [floor_offset(prog, x, acc, cls, depth) for x in t[2]]
+        # a floor written in this repository (the no-fp fallback, a wrapper around a back-end) is analysed, not trusted
+        for cand in (res, decl):
+            b = prog.bodies.get(cand)
+            if b is not None and depth < 3 and b.d.get("argc", 0) == len(t[2]):
+                ret = T.strip(T.Slicer(b).local(0), refs=True, sites=True)
+                r = floor_offset(prog, _subst(ret, list(t[2])), acc, cls, depth + 1)
+                if r[0] != "unknown" or last not in ("floor", "floorf"):
+                    return r
+        if last in ("floor", "floorf") and a and a[0] == ("coord",):
+            return ("off", 0)             # std / libm / micromath floor: trusted (their accuracy is not this property's business)
+        if last == "is_sign_negative" and a and a[0] == ("coord",):
+            return ("int", 1 if neg else 0)
+        if last in ("saturating_sub", "wrapping_sub", "saturating_add", "wrapping_add") and len(a) == 2 and a[0][0] == "off" and a[1][0] == "int":
+            return ("off", a[0][1] - a[1][1] if "sub" in last else a[0][1] + a[1][1])
+        for x in a:
+            if x[0] in ("bad", "unknown"):
+                return x
+        return ("unknown", "call to %s" % decl)
+    if t[0] == "cast" and t[1] == "IntToInt":
+        return floor_offset(prog, t[2], acc, cls, depth)
+    if t[0] == "cast" and t[1] == "FloatToInt":
+        inner = floor_offset(prog, t[2], acc, cls, depth)
+        if inner[0] in ("bad", "unknown"):
+            return inner
+        if t[3].startswith("u") and neg and cls != "negative zero":
+            return ("bad", "a float is converted straight to the unsigned %s: every negative coordinate saturates to 0 instead of wrapping" % t[3])
+        if t[3] in ("i8", "i16", "u8", "u16"):
+            return ("bad", "the coordinate is converted to %s, which saturates long before 2^31" % t[3])
+        if inner == ("coord",):
+            return ("off", 1 if cls == "negative non-integer" else 0)     # truncation towards zero
+        return inner
+    if t[0] == "cast" and t[1] in ("IntToFloat", "BoolToInt") or (t[0] == "cast" and t[1] == "IntToInt"):
+        return floor_offset(prog, t[2], acc, cls, depth)
+    if t[0] == "bin" and t[1] in ("Add", "Sub", "AddWithOverflow", "SubWithOverflow") and len(t) >= 5 and not str(t[4]).startswith("f"):
+        a, b = floor_offset(prog, t[2], acc, cls, depth), floor_offset(prog, t[3], acc, cls, depth)
+        if a[0] == "off" and b[0] == "int":
+            return ("off", a[1] + (b[1] if "Add" in t[1] else -b[1]))
+        for x in (a, b):
+            if x[0] in ("bad", "unknown"):
+                return x
+        return ("unknown", "integer arithmetic on %s" % T.show(t)[:50])
+    if t[0] == "bin" and t[1] in ("Gt", "Lt", "Ge", "Le", "Eq", "Ne"):
+        # comparison of an integral value floor(coord)+k with the coordinate itself: decided per class
+        # (coord - floor(coord) is 0 for the integer classes and strictly inside (0, 1) otherwise)
+        a, b = floor_offset(prog, t[2], acc, cls, depth), floor_offset(prog, t[3], acc, cls, depth)
+        op = t[1]
+        if a == ("coord",) and b[0] == "off":
+            a, b = b, a
+            op = {"Gt": "Lt", "Lt": "Gt", "Ge": "Le", "Le": "Ge"}.get(op, op)
+        if a[0] == "off" and b == ("coord",):
+            k = a[1]
+            integral = "integer" in cls and "non-integer" not in cls or cls == "negative zero"
+            if integral:
+                v = {"Gt": k > 0, "Lt": k < 0, "Ge": k >= 0, "Le": k <= 0, "Eq": k == 0, "Ne": k != 0}[op]
+            else:
+                v = {"Gt": k >= 1, "Lt": k <= 0, "Ge": k >= 1, "Le": k <= 0, "Eq": False, "Ne": True}[op]
+            return ("int", int(v))
+        for x in (a, b):
+            if x[0] in ("bad", "unknown"):
+                return x
+        return ("unknown", "comparison %s" % T.show(t)[:50])
+    if t[0] == "bin" and len(t) >= 5 and str(t[4]).startswith("f"):
+        return ("bad", "float arithmetic (%s) is applied to the coordinate before it is floored: f32 rounding moves values across integer boundaries "
+                       "(tiny negatives, magnitudes beyond 2^23)" % t[1])
+    if t[0] == "field" and t[2] in ("(,).0", "tuple.0", "0"):
+        return floor_offset(prog, t[1], acc, cls, depth)
+    return ("unknown", "term %s" % T.show(t)[:60])
+
+
+def floor_chain(prog, t, axis):
+    """K-floor: which texel the repeating sampler addresses. The masked operand must equal floor(coord) + 0 modulo the
+    (power-of-two) size for every |coord| < 2^31. Finite-domain abstract interpretation of the conversion term: the
+    coordinate ranges over five classes (sign x integrality, and -0.0); each operation maps an offset relative to
+    floor(coord): floor -> 0; float->signed truncation -> +1 on negative non-integers; is_sign_negative -> 0/1;
+    integer +/- constants shift; int->int conversions preserve residues; float->unsigned of a negative value,
+    narrow targets and float arithmetic before the floor are recognised as wrong."""
+    t = strip_all(t)
+    if t[0] != "bin" or t[1] != "BitAnd":
+        return "unknown", "not masked"
+    x = None
+    for a, b in ((t[2], t[3]), (t[3], t[2])):
+        m = T.strip(b, refs=True)
+        if m[0] == "field" and m[2].startswith("SamplerRepeatPot."):
+            x = a
+    if x is None:
+        return "unknown", "mask operand not found"
+    acc = "::u" if axis == 0 else "::v"
+    wrong = []
+    for cls in COORD_CLASSES:
+        r = floor_offset(prog, x, acc, cls)
+        if r[0] == "bad":
+            return "bad", r[1] + " (coordinates: %s)" % cls
+        if r[0] == "unknown":
+            return "unknown", r[1]
+        if r[0] != "off":
+            return "unknown", "masked operand is %r, not derived from the coordinate" % (r,)
+        if r[1] != 0:
+            wrong.append("%s -> floor %+d" % (cls, r[1]))
+    if wrong:
+        return "bad", "the masked value is not floor(coordinate) for: " + "; ".join(wrong)
+    return "ok", "floor(%s) on all %d coordinate classes" % (acc[2:], len(COORD_CLASSES))
 
 
 def clamp_component(prog, t, axis):
@@ -110,6 +243,15 @@ def check_config(rep, prog):
                     rep.violate("C12.B-index", "B-index|%s|axis%d" % (name, axis), sa.where(bi, None),
                                 "%s::sample_abs: index component %d has no bounding provenance against its own axis (%s): the view's out-of-bounds panic is reachable"
                                 % (name, axis, why), config=cfg)
+            if name == "SamplerRepeatPot":
+                for axis in (0, 1):
+                    verdict, why = floor_chain(prog, comps[axis], axis)
+                    rep.inst("C12.K-floor", "%s::sample_abs axis %d: %s (%s)" % (name, axis, why, verdict), config=cfg)
+                    if verdict == "bad":
+                        rep.violate("C12.K-floor", "K-floor|axis%d" % axis, sa.where(bi, None),
+                                    "SamplerRepeatPot::sample_abs does not address the texel at floor(coordinate) mod size: %s" % why, config=cfg)
+                    elif verdict == "unknown":
+                        raise common.Infra("C12.K-floor: conversion chain of axis %d not recognised (%s); classify it" % (axis, why))
             # the view indexed is the texture's own data
             rv = strip_all(recv)
             own = T.contains(rv, lambda s: s[0] == "field" and s[2] == "Texture.data")
